@@ -355,6 +355,12 @@ func init() {
 						want = want[1:]
 					}
 				}
+				// the same packet with an all-zero SIM and with a SIM that differs in one byte only
+				z := append([]byte{}, bodies[3]...)
+				copy(z[8:14], []byte{0, 0, 0, 0, 0, 0})
+				y := append([]byte{}, bodies[3]...)
+				y[8] ^= 0x10
+				bodies = append(bodies, z, y)
 			default:
 				bodies = append(append([][]byte{}, caps[tg.id]...), sim[tg.id]...)
 			}
